@@ -318,6 +318,16 @@ EXTRA12 = {
     'C20': "An honest connection the node opened itself stays untouched when a peer on the same host announces other hosts with the same port.",
 }
 
+# additions of the thirteenth wave
+EXTRA13 = {
+    'C02': "An overspending transaction that is NOT the first ordinary transaction of its block, with fees paid ahead of it covering the excess (reward at the subsidy / at subsidy + net fees).",
+    'C06': "Every flip of the header region (and the start of the transaction list) of every block is offered again with the checkpoint horizon at the block's parent's height: the first block above a horizon is validated in full.",
+    'C12': "Three peers, two of them at one address (two nodes behind one address are two peers): each receives the found block exactly once.",
+    'C16': "The amount lists are also offered inside blocks (second / third transaction, built in memory and decoded from the wire) to the stand-alone block validator.",
+    'C19': "An event 'redial': an address whose outgoing connection is still open is dialled again from outside the manager's retry loop (duplicate OUTGOING key).",
+    'C20': "Replayed greetings (the victim's, the other honest peers', the node's own nonce) alone / after the attacker's own / twice; every rule-breaking block also dressed up as the answer to a request the node never made; blocks stating a wrong height delivered as REQUESTED answers (inventory, request, block) - the bulk-download path; manager steps at the next full minute and after every outstanding request has timed out.",
+}
+
 NOT_YET = "check not built yet in this revision of /verif (work in progress; see DESIGN.md section 4)"
 
 ALL = ['C%02d' % i for i in range(1, 21)]
@@ -333,6 +343,8 @@ def main():
             text = text.rstrip() + ' ' + EXTRA[pid]
         if pid in EXTRA12:
             text = text.rstrip() + ' ' + EXTRA12[pid]
+        if pid in EXTRA13:
+            text = text.rstrip() + ' ' + EXTRA13[pid]
         checks.append({
             'property_id': pid,
             'quick_cmd': './check %s --tier quick' % pid,
